@@ -7,7 +7,7 @@ scale+=[dict(r,set="c8",value=("8" if r.get("ident")=="lruChunkSize" else r["val
 Q=["quick","thorough"];T=["thorough"]
 H=[{"name":"H_witness","tiers":Q,"expect":"violation","bounds":"vacuity witness"}]
 H.append({"name":"H_fields","tiers":Q,"scale":"b2","bounds":"valid 2-file patch (rsync series + bsdiff series), B=2: the int64/enum/bool fields of one message at a time (13 messages) replaced by fresh symbolic values over the full 32/64-bit range, fed to patcher.New/Resume (fresh bowl) and rediff.NewContext/Optimize",
-  "max_steps":20000000,"param_sets":[{"mut":m,"structure":0} for m in range(13)]})
+  "max_steps":20000000,"max_decisions":400,"param_sets":[{"mut":m,"structure":0} for m in range(13)]})
 H.append({"name":"H_fields","tiers":Q,"scale":"c8","bounds":"the bsdiff series messages (header, two controls, EOF control) mutated with an LRU chunk of 8 bytes: the 3-byte old file ends inside a chunk",
   "max_steps":20000000,"param_sets":[{"mut":m,"structure":0} for m in (5,6,7,8)]})
 H.append({"name":"H_fields","tiers":Q,"scale":"b2","bounds":"structure mutations: end marker dropped / duplicated, series kinds swapped, bsdiff EOF control dropped, an op after a full-file op, no end marker after it (no field mutated)",
